@@ -8,8 +8,11 @@ import (
 	"verif/harness/suites/contract"
 	"verif/harness/suites/dct"
 	"verif/harness/suites/dwt"
+	"verif/harness/suites/ht"
 	"verif/harness/suites/j2kblocks"
 	"verif/harness/suites/j2ke2e"
+	"verif/harness/suites/q97"
+	t1s "verif/harness/suites/t1"
 	"verif/harness/vhlib"
 )
 
@@ -19,6 +22,9 @@ func main() {
 	dwt.Register(s)
 	dct.Register(s)
 	contract.Register(s)
+	ht.Register(s)
+	q97.Register(s)
+	t1s.Register(s)
 	j2ke2e.Register(s)
 	vhlib.Main(s)
 }
